@@ -1,5 +1,6 @@
 import FinamModel.Props.TrInfo
 import FinamModel.Translated.Output_get_info
+import FinamModel.Translated.Input_exchange_info
 /-!
   C07 — the producer's side of the metadata exchange, on the *translated* `Output.get_info` (`sdk/output.py`,
   regenerated on every run; it calls the translated `Info.accepts`).
@@ -208,5 +209,44 @@ theorem code_get_info_complete (g : Option Nat) (t : Option Int) (m : Option Int
 example : Tr.Output_get_info true none (some 0) (some (-1)) (some 7) [(0, some 7), (1, none)] false 0
     (some 3) (some 5) (some (-1)) (some 7) [(0, some 7), (1, some 9)] (fun _ _ => true) (fun _ _ => true) (meq ⟨fun _ _ => true, fun _ _ => true, fun _ _ => true, fun _ _ => true, fun _ _ _ _ => true, fun _ _ => true, 0, id⟩)
     = .ok (1, some 3, [(0, some 7), (1, some 9)], some 0) := by decide
+
+/-! ### the consumer's side: `Input.exchange_info` -/
+
+open Finam.Info in
+/-- **`Input.exchange_info`** (the gate of it; building the merged info is `mergeInfo` of the hand model): an input
+    exchanges at most once; its metadata come either from the constructor or with the call, never from both and never
+    from neither; the source's answer is tested with `accepts` in the *upstream* direction; only then is the input
+    marked as exchanged.  `own` = the metadata in effect, `src` = what the source answered. -/
+theorem tr_Input_exchange_info (R : Rel) (exchanged hasInfo given : Bool) (own src : Info) :
+    Tr.Input_exchange_info exchanged hasInfo given own.grid (mcode own.mask) own.units src.grid (mcode src.mask) src.units
+        (gcompat R) R.unitsCompat (meq R) =
+      if exchanged then .error .metaErr
+      else if hasInfo && given then .error .metaErr
+      else if !hasInfo && !given then .error .metaErr
+      else if !accepts R own src false then .error .metaErr
+      else .ok true := by
+  unfold Tr.Input_exchange_info Tr.Input_exchange_info.join1
+  rw [tr_Info_accepts]
+  cases exchanged <;> cases hasInfo <;> cases given <;> cases accepts R own src false <;>
+    simp [bind, Except.bind, pure, Except.pure, throw, throwThe, MonadExceptOf.throw]
+
+open Finam.Info in
+/-- the first part of the model's `exchange` is this gate (an `InState` always carries its own metadata, nothing is
+    passed with the call) -/
+theorem code_input_exchange_gate (R : Rel) (inp : InState) (src : Info) :
+    Tr.Input_exchange_info inp.exchanged true false inp.info.grid (mcode inp.info.mask) inp.info.units
+        src.grid (mcode src.mask) src.units (gcompat R) R.unitsCompat (meq R) =
+      if inp.exchanged then .error .metaErr
+      else if !accepts R inp.info src false then .error .metaErr
+      else .ok true := by
+  rw [tr_Input_exchange_info]
+  cases inp.exchanged <;> simp
+
+open Finam.Info in
+/-- **an input exchanges at most once, on the code**: whatever the source answers, a second `exchange_info` is refused -/
+theorem code_input_exchanges_once (R : Rel) (hasInfo given : Bool) (own src : Info) :
+    Tr.Input_exchange_info true hasInfo given own.grid (mcode own.mask) own.units src.grid (mcode src.mask) src.units
+        (gcompat R) R.unitsCompat (meq R) = .error .metaErr := by
+  rw [tr_Input_exchange_info]; rfl
 
 end Finam.Props.C07
